@@ -264,6 +264,9 @@ func TestVerifC16(t *testing.T) {
 				if r.Intn(6) == 0 {
 					h = 2 + r.Intn(4)
 				}
+				if r.Intn(10) == 0 {
+					w, h = 250+r.Intn(300), []int{h, 100 + r.Intn(200)}[r.Intn(2)] // very large terminals
+				}
 				trail = append(trail, fmt.Sprintf("resize %dx%d", w, h))
 				x.resize(w, h)
 			}
